@@ -49,13 +49,13 @@ func controllerMessage(r *prng.R, kind string, o MsgOpt, try int) *rec.Rec {
 	}
 	switch kind {
 	case "hello":
-		m.SetL("elements", []*rec.Rec{rec.New("hello_versionbitmap").SetB("bitmaps", []byte{0, 0, 0, 0x12})})
+		m.SetL("elements", []*rec.Rec{rec.New("hello_versionbitmap").SetB("bitmaps", HelloDefaultBitmap())})
 		if r.Chance(1, 2) { // further version-bitmap elements of 1..3 words appended to the constructor's default one
 			for n := r.Pick(1, 1, 2, 3); n > 0; n-- {
 				m.Add("elements", rec.New("hello_versionbitmap").SetB("bitmaps", r.Bytes(4*r.Pick(1, 2, 2, 3, 4, 6, 7, 8, 15))))
 			}
 			if r.Bool() { // and the default element itself with more words
-				m.List("elements")[0].SetB("bitmaps", append([]byte{0, 0, 0, 0x12}, r.Bytes(4*r.Pick(1, 2))...))
+				m.List("elements")[0].SetB("bitmaps", append(HelloDefaultBitmap(), r.Bytes(4*r.Pick(1, 2))...))
 			}
 		}
 	case "echo_request", "echo_reply", "features_request", "get_config_request", "barrier_request", "nx_tlv_table_request":
